@@ -11,7 +11,8 @@ CLAUSES = {
             'item_count_exceeds_processed_items', 'library_panicked', 'streams_mixed_in_one_snapshot', 'return_without_call'},
     'C07': {'quiescent_snapshot_has_stale_pattern', 'quiescent_item_count_differs_from_injected', 'quiescent_matches_differ_from_scratch'},
     'C12': {'snapshot_not_empty_after_restart_clear', 'snapshot_changed_after_restart_before_new_run', 'old_stream_item_in_snapshot_of_new_stream',
-            'item_count_includes_old_stream', 'streams_mixed_in_one_snapshot', 'item_appears_twice_after_restart'},
+            'item_count_includes_old_stream', 'streams_mixed_in_one_snapshot', 'item_appears_twice_after_restart',
+            'library_crashed_before_first_snapshot_of_new_stream'},
     'C13': {'lost_wakeup_tick_reported_running_but_no_notify_followed', 'push_did_not_notify', 'push_notified_before_item_visible'},
     'C19': {'changed_false_but_snapshot_differs', 'running_false_but_completed_push_missing', 'running_false_but_pattern_stale'},
     'C20': {'active_injectors_wrong'},
